@@ -231,3 +231,186 @@ Proof.
 Qed.
 
 Lemma unit_rows_count : length all_unit_rows = 33%nat. Proof. vm_compute. reflexivity. Qed.
+
+(* ---- 1c. month words, through the lexer: what date_print writes for a day of month m ("5 February" in the
+        clock's year, "5 Feb 2020" otherwise; uppercase-first of the table's long / short name) is read back as
+        that very day and printed identically *)
+Definition month_rows (lang : str) : list monthinfo :=
+  match assoc lang d_months with Some l => l | None => [] end.
+
+Definition date_is (r : option (str * option (token float))) (out : str) (days : Z) : bool :=
+  match r with
+  | Some (out', Some (TDate d _)) => str_eqb out' out && Z.eqb d days
+  | _ => false
+  end.
+
+Definition month_row_ok (lang : str) (mi : monthinfo) : bool :=
+  let m := mi_month mi in
+  let l1 := s "5 " ++ uppercase_first_letter (mi_long mi) in
+  let l2 := s "5 " ++ uppercase_first_letter (mi_short mi) ++ s " 2020" in
+  str_eqb (date_print DC lang (ck_year CK15) (days_from_civil (ck_year CK15) m 5) (cf_tz DC)) l1 &&
+  str_eqb (date_print DC lang (ck_year CK15) (days_from_civil 2020 m 5) (cf_tz DC)) l2 &&
+  date_is (enter CK15 DC lang l1) l1 (days_from_civil (ck_year CK15) m 5) &&
+  date_is (enter CK15 DC lang l2) l2 (days_from_civil 2020 m 5).
+
+Lemma month_rows_ok :
+  forallb (fun lang => forallb (month_row_ok lang) (month_rows lang) && Nat.eqb (length (month_rows lang)) 12) [EN; TR] = true.
+Proof. vm_compute. reflexivity. Qed.
+
+Lemma date_is_true r out days : date_is r out days = true ->
+  exists tz, r = Some (out, Some (TDate days tz)).
+Proof.
+  unfold date_is. destruct r as [[o [t|]]|]; try discriminate. destruct t; try discriminate.
+  intro H. apply andb_prop in H. destruct H as [H1 H2]. apply str_eqb_eq in H1. apply Z.eqb_eq in H2. subst.
+  eexists. reflexivity.
+Qed.
+
+Lemma month_words : forall lang mi, In lang [EN; TR] -> In mi (month_rows lang) ->
+  let m := mi_month mi in
+  let l1 := s "5 " ++ uppercase_first_letter (mi_long mi) in
+  let l2 := s "5 " ++ uppercase_first_letter (mi_short mi) ++ s " 2020" in
+  date_print DC lang (ck_year CK15) (days_from_civil (ck_year CK15) m 5) (cf_tz DC) = l1 /\
+  date_print DC lang (ck_year CK15) (days_from_civil 2020 m 5) (cf_tz DC) = l2 /\
+  (exists tz, enter CK15 DC lang l1 = Some (l1, Some (TDate (days_from_civil (ck_year CK15) m 5) tz))) /\
+  (exists tz, enter CK15 DC lang l2 = Some (l2, Some (TDate (days_from_civil 2020 m 5) tz))).
+Proof.
+  intros lang mi Hl Hin m l1 l2. pose proof month_rows_ok as H. rewrite forallb_forall in H.
+  specialize (H lang Hl). apply andb_prop in H. destruct H as [H _]. rewrite forallb_forall in H.
+  specialize (H mi Hin). unfold month_row_ok in H. fold m l1 l2 in H.
+  apply andb_prop in H. destruct H as [H H4]. apply andb_prop in H. destruct H as [H H3].
+  apply andb_prop in H. destruct H as [H1 H2]. apply str_eqb_eq in H1. apply str_eqb_eq in H2.
+  split; [exact H1|]. split; [exact H2|]. split; apply date_is_true; assumption.
+Qed.
+
+(* ---- 1d. zone names: `10:30 Z` for every zone of the table prints a text that prints itself again with the
+        same value; for the 174 zones the zone regex can express and that are no currency code the value is the
+        time in that zone and the text is `10:30:00 Z` *)
+Definition zone_time (p : str * Z) : bool :=
+  match enter CK15 DC EN (s "10:30 " ++ fst p) with
+  | Some (out, Some (TTime t z)) =>
+    str_eqb (tz_name z) (fst p) && Z.eqb (tz_off z) (snd p) && str_eqb out (s "10:30:00 " ++ fst p)
+  | _ => false
+  end.
+
+Lemma zone_rows_ok :
+  forallb (fun p => reprints_value CK15 DC EN (s "10:30 " ++ fst p)) d_timezones = true /\
+  length (filter zone_time d_timezones) = 174%nat /\ length d_timezones = 191%nat.
+Proof. vm_compute. repeat split; reflexivity. Qed.
+
+Lemma zone_words : forall n o, In (n, o) d_timezones ->
+  Reprintable_value CK15 DC EN (s "10:30 " ++ n) /\ prints CK15 DC EN (s "10:30 " ++ n) = true.
+Proof.
+  intros n o Hin. destruct zone_rows_ok as [H _]. rewrite forallb_forall in H. specialize (H (n, o) Hin).
+  cbn [fst] in H. apply reprints_value_sound in H. destruct H as [Hp Hr]. split; assumption.
+Qed.
+
+Lemma zone_times : forall n o, zone_time (n, o) = true ->
+  exists t, enter CK15 DC EN (s "10:30 " ++ n)
+            = Some (s "10:30:00 " ++ n, Some (TTime t {| tz_name := n; tz_off := o |})).
+Proof.
+  intros n o H. unfold zone_time in H. change (fst (n, o)) with n in H. change (snd (n, o)) with o in H.
+  destruct (enter CK15 DC EN (s "10:30 " ++ n)) as [[out [tk|]]|]; try discriminate.
+  destruct tk; try discriminate. apply andb_prop in H. destruct H as [H H3]. apply andb_prop in H. destruct H as [H1 H2].
+  apply str_eqb_eq in H1. apply Z.eqb_eq in H2. apply str_eqb_eq in H3. destruct tz as [zn zo].
+  change (zn = n) in H1. change (zo = o) in H2. subst. eexists. reflexivity.
+Qed.
+
+(* ---- 1e. currencies: the partition of the table.  money_print writes the currency's symbol; the reader
+        (read_currency) knows alias keys and codes.  SPEC SIDE (from config.json parse.money): the name the money
+        regexes capture from the printed text - `\p{Sc}` directly in front of the amount, or `[ ]*[a-zA-Z]{2,}` /
+        `[ ]*\p{Sc}` behind it *)
+Definition is_sc (c : N) : bool :=
+  existsb (N.eqb c) [36; 162; 163; 164; 165; 1423; 1547; 2046; 2047; 2546; 2547; 2555; 2801; 3065; 3647; 6107;
+                     8352; 8353; 8354; 8355; 8356; 8357; 8358; 8359; 8360; 8361; 8362; 8363; 8364; 8365; 8366; 8367;
+                     8368; 8369; 8370; 8371; 8372; 8373; 8374; 8375; 8376; 8377; 8378; 8379; 8380; 8381; 8382; 8383;
+                     8384; 43064; 65020; 65129; 65284; 65504; 65505; 65509; 65510]%N.
+Definition is_ascii_letter (c : N) : bool := (N.leb 65 c && N.leb c 90) || (N.leb 97 c && N.leb c 122).
+Fixpoint take_letters (x : str) : str :=
+  match x with c :: r => if is_ascii_letter c then c :: take_letters r else [] | [] => [] end.
+
+Definition reader_name (c : currency) : option str :=
+  let sym := c_symbol c in
+  if c_left c then
+    match rev sym with
+    | l :: _ => if negb (c_space c) && is_sc l then Some [l] else None
+    | [] => None
+    end
+  else
+    let w := take_letters sym in
+    if Nat.leb 2 (length w) then Some w
+    else match sym with f :: _ => if is_sc f then Some [f] else None | [] => None end.
+
+(* read_currency on that name: the currency it denotes *)
+Definition reads_as (c : currency) : option str :=
+  match reader_name c with
+  | Some n => read_currency DC n
+  | None => None
+  end.
+
+Definition rereadable (kv : str * currency) : bool :=
+  match reads_as (snd kv) with Some code => str_eqb code (c_code (snd kv)) | None => false end.
+(* the printed text is exactly what some re-readable currency prints (18 currencies print like USD: `$1.234,50`) *)
+Definition prints_like_rereadable (kv : str * currency) : bool :=
+  match reads_as (snd kv) with
+  | Some code =>
+    match currency_by_code DC code with
+    | Some c' => str_eqb (c_symbol c') (c_symbol (snd kv)) && Bool.eqb (c_left c') (c_left (snd kv)) &&
+                 Bool.eqb (c_space c') (c_space (snd kv)) && N.eqb (c_digits c') (c_digits (snd kv)) &&
+                 rereadable (code, c')
+    | None => false
+    end
+  | None => false
+  end.
+
+Definition money_line (kv : str * currency) : str := s "1234,5 " ++ fst kv.
+
+(* the pipeline agrees with the spec-side partition on every row: the printed money is read back as the same
+   amount of the same currency exactly for the re-readable rows, and prints the same TEXT again exactly for the rows
+   that print like a re-readable currency *)
+Definition currency_row_ok (kv : str * currency) : bool :=
+  prints CK15 DC EN (money_line kv) &&
+  Bool.eqb (reprints_value CK15 DC EN (money_line kv)) (rereadable kv) &&
+  Bool.eqb (reprints CK15 DC EN (money_line kv)) (prints_like_rereadable kv).
+
+Lemma currency_rows_ok : forallb currency_row_ok d_currency = true.
+Proof. vm_compute. reflexivity. Qed.
+
+Lemma currency_partition_lists :
+  map fst (filter rereadable d_currency) = [s "dkk"; s "eur"; s "mvr"; s "tjs"; s "try"; s "usd"] /\
+  length d_currency = 161%nat /\
+  length (filter prints_like_rereadable d_currency) = 24%nat /\
+  length (filter (fun kv => match reads_as (snd kv) with None => true | Some _ => false end) d_currency) = 125%nat.
+Proof. vm_compute. repeat split; reflexivity. Qed.
+
+Lemma currency_partition : forall kv, In kv d_currency ->
+  prints CK15 DC EN (money_line kv) = true /\
+  (rereadable kv = true -> Reprintable_value CK15 DC EN (money_line kv)) /\
+  (prints_like_rereadable kv = true -> Reprintable CK15 DC EN (money_line kv)) /\
+  (prints_like_rereadable kv = false -> ~ Reprintable CK15 DC EN (money_line kv)).
+Proof.
+  intros kv Hin. pose proof currency_rows_ok as H. rewrite forallb_forall in H. specialize (H kv Hin).
+  unfold currency_row_ok in H. apply andb_prop in H. destruct H as [H H3]. apply andb_prop in H. destruct H as [H1 H2].
+  apply Bool.eqb_prop in H2. apply Bool.eqb_prop in H3.
+  split; [exact H1|]. split; [|split].
+  - intro Hr. rewrite Hr in H2. apply reprints_value_sound in H2. apply H2.
+  - intro Hr. rewrite Hr in H3. apply reprints_sound in H3. apply H3.
+  - intro Hr. rewrite Hr in H3. apply refutes_sound. unfold refutes. rewrite H1, H3. reflexivity.
+Qed.
+
+(* ---- 1f. units through the pipeline: every unit, entered with every one of its names that a parse pattern `{NUMBER:value} {TEXT:type:name}` carries, prints a text that prints
+        itself again with the same value (default separators and the three other lexable conventions) *)
+Definition unit_lines (d : str) : list str :=
+  flat_map (fun gr => map (fun nm => s "1234" ++ d ++ s "5 " ++ nm)
+                         (filter (fun nm => mem_str (s "{NUMBER:value} {TEXT:type:" ++ nm ++ s "}") (ur_parse (snd gr)))
+                                 (ur_names (snd gr)))) all_unit_rows.
+
+Definition is_unit (r : option (str * option (token float))) : bool :=
+  match r with Some (_, Some (TDynamicType _ _)) => true | _ => false end.
+
+Lemma unit_lines_ok :
+  forallb (fun l => reprints_value CK15 DC EN l && is_unit (enter CK15 DC EN l)) (unit_lines (s ",")) = true /\
+  forallb (fun l => reprints_value CK15 (cfg_seps (s ".") (s ",")) EN l) (unit_lines (s ".")) = true /\
+  forallb (fun l => reprints_value CK15 (cfg_seps (s ".") []) TR l) (unit_lines (s ".")) = true /\
+  forallb (fun l => reprints_value CK15 (cfg_seps (s ",") []) TR l) (unit_lines (s ",")) = true /\
+  length (unit_lines (s ",")) = 72%nat.
+Proof. vm_compute. repeat split; reflexivity. Qed.
